@@ -23,12 +23,12 @@ A1 = "A1 usize is 64 bit (global size_of usize == 8)"
 A2 = "A2 collection lengths < 2^62 (only for overflow-freedom of drain_into's capacity arithmetic)"
 A3 = "A3 fewer than 2^32-1 live handles per side (count += 1 does not overflow)"
 A4 = "A4 Instant::now() + duration is representable (checked_add(..).unwrap() does not panic)"
-A5 = "A5 default features (async on, std-mutex off); atomics sequentially consistent, machine integers exact with overflow obligations"
+A5 = "A5 default features (async on, std-mutex off), release semantics (debug_assert! / cfg(debug_assertions) code compiled out: verus -C debug-assertions=off); atomics sequentially consistent, machine integers exact with overflow obligations"
 
 T_COMMON = [
     "T1 Mutex::lock/try_lock/from and MutexGuard Deref/DerefMut/drop (prelude_u1.rs): exclusive access, wf on acquisition, try_lock never waits",
     "T11 vstd's own specifications of VecDeque, Vec, Arc, Option, Result, MaybeUninit",
-    "kweave (the extractor): trusted to copy text by span; checked on every run by the byte-level fidelity audit; exec rewrites X1-X10 are listed in this file under exec_rewrites",
+    "kweave (the extractor): trusted to copy text by span; checked on every run by the byte-level fidelity audit; exec rewrites X1-X14 are listed in this file under exec_rewrites",
     "Verus 0.2026.09.13 and Z3 as shipped",
 ]
 T_SIGNAL = [
@@ -38,7 +38,7 @@ T_SIGNAL = [
     "T5 Signal::wait: in U1 assumed to return delivered(self); its sequential contract (returns only after observing a final state, with acquire semantics, on the fast path, the yield phase, the failed-CAS path and the park loop) is PROVED on the real text in U2 and linked by the glue lemma; what stays assumed is the concurrent half (R2a/R2b: final states are final, only the waiter stores LOCKED_STARVATION) and park/unpark liveness",
     "T6 Signal::wake / Signal::send / recv / terminate: their sequential contracts (the payload is moved before the final state is published; the final state is published by a store or compare_exchange with ordering >= Release; terminate publishes TERMINATED) are PROVED on the real text in U2 (rewrite X11: `this: *const Self` read as `&Self`); value-level behaviour by Kani K2; the concurrent half is assumed (R2, R2b: a failed LOCKED->final exchange means the waiter has published its thread handle)",
     "T7 KanalPtr constructors/read/write (assumed payload chain in U1; proved per size class by Kani group K1 where claimed)",
-    "T8 Signal::assume_init / load_and_drop (assumed: require delivered resp. local value present)",
+    "T8 Signal::assume_init / load_and_drop (in U1 assumed: require delivered resp. local value present; in U2 their bodies are proved to read through the signal's own KanalPtr)",
 ]
 T_TIME = ["T9 Instant::now/checked_add/comparison (assumed clock token `reached`)", "T10 thread::park/yield/sleep, available_parallelism, spin_loop return and do not touch channel state"]
 
@@ -47,7 +47,7 @@ T_U2 = [
     "U2 stand-ins (prelude_u2.rs): AtomicBool / AtomicU8 / AtomicU32 / AtomicUsize, fence, Ordering with sequential one-directional contracts (a winning compare_exchange(false->true, >=Acquire) lets the caller conclude `acquired`; a load lets it conclude `observed(v)`); atomics are treated as sequentially consistent",
     "U2 trusted leaves: get_parallelism, random_u7, random_u32 (function-local statics), sleep / spin_hint / yield_now_std (std::thread), Instant::now and comparison (clock token), Waker::clone / will_wake, KanalPtr (opaque), UnsafeCell/Thread stand-ins",
     "glue between U1 and U2 (assumed, R2a): the signal states UNLOCKED and TERMINATED are final, so `observed(UNLOCKED)` (U2) is `delivered` (U1) and `observed(TERMINATED)` is `seen_terminated` / not delivered; L-MUTEX: `acquired` = holding the channel lock",
-    "not woven in U2: Signal::send_copy (unused), assume_init / load_and_drop (one-line wrappers of KanalPtr::read), get_terminator and SignalTerminator::* (pointer casts / one-line wrappers); backoff::randomize/random_u32 (dead code)",
+    "not woven in U2: get_terminator / From<*const Signal> / SignalTerminator::eq (pointer casts; identity checked by Kani K2.terminator-identity on the real code); backoff::randomize/random_u32 (dead code). SignalTerminator::{send,send_copy,recv,terminate} and Signal::{send_copy,assume_init,load_and_drop} ARE woven (rewrite X11: the raw pointer field is the stand-in SigPtr, `self.0` is read as `self.0.as_ref()`): sequential contracts proved, aliveness of the pointee (R3) and the cross-thread half (R2) assumed",
 ]
 
 def mk(units, trusted, assumptions, explanation):
@@ -60,7 +60,7 @@ PROPS = {
     "C03": mk(["u1"], T_SIGNAL, [R1, R2, R3, A1, A5], "every entry point ensures one atomic reference step per critical section; lock invariant at every guard death"),
     "C04": mk(["u1", "u2", "glue"], T_SIGNAL + T_U2 + ["Kani 0.68 / CBMC 6.11 as shipped; one ignored CBMC check (zero-byte memset of core::mem::zeroed::<ZST>) listed under kani_tool_artefacts_ignored"],
               [R1, R2, R3, A1, A5, "universal quantifier over the message type T is covered by size/alignment classes (ZST, over-aligned ZST, 1,2,3,4,8 bytes, padded, 16, 24 bytes, padded large), each over its full value domain",
-               "memory ordering (release store after the payload write / acquire before the read) is NOT decided: Verus assumes SC, Kani has no threads"],
+               "memory ordering is decided only at the level of the annotations: U2 proves on the real text that the payload is moved before the final state is published, that every publishing store / compare_exchange has ordering >= Release, that the waiter is woken only after the publication, and that every path on which a waiter returns a final state has executed an acquire load or fence after observing it; that these annotations yield the happens-before edge is the C11 memory model and is assumed (Verus treats atomics as SC, Kani has no threads)"],
               "Kani: KanalPtr and Signal transport every value bit-for-bit per size class (complete per instance); Verus: a receiver reads a slot only with evidence of delivery and with the size dispatch consistent"),
     "C05": mk(["u1"], T_SIGNAL, [R1, R2, R3, A1, A5], "MaybeUninit typestate + scope-exit obligations on every lent slot + Option post-conditions"),
     "C08": mk(["u1", "u2", "glue"], T_SIGNAL + T_U2, [R1, R2, R3, A1, A2, A5], "len <= capacity is part of the lock invariant; admission post-conditions"),
